@@ -2522,8 +2522,8 @@ PROPS = {
         'replay_aware': True,
         'pinned': ['C05_fast_in_call_R', 'C05_fast_in_stream_R', 'C05_fast_out_stream_R', 'C05_fast_chunk_independent_R',
                    'C05_fast_variant_independent_R', 'C05_fft_inout_stream', 'C05_fft_in_call_R', 'C05_fft_in_stream_R',
-                   'C05_fft_out_call_R', 'C05_fft_out_stream_R'],
-        'unproved': ['sinc resamplers (incl. set_chunk_size in mid-stream): no stream theorem; decided by the bit-exact '
+                   'C05_fft_out_call_R', 'C05_fft_out_stream_R', 'C05_sinc_in_call_R', 'C05_sinc_in_stream_R'],
+        'unproved': ['SincFixedOut: no stream theorem (its last kernel window can touch one cell beyond the filled region, with zero weight in exact arithmetic, when the last instant is integral and the oversampling factor is small: the content invariant of the proof does not cover that cell); decided by the bit-exact '
                      'model on every member of every family plus the family comparison of the implementation outputs',
                      'FFT types: the spectral core is an oracle with its length contract; FftFixedIn / FftFixedOut: their f32 quotients read as real quotients',
                      'ratio schedules (set_resample_ratio between chunks): the theorems are for constant ratio',
